@@ -145,7 +145,7 @@ class Gen:
                 for i in ids(w[1] if len(w) > 1 else "*"): out += ("plug %d: %d\n" % (i, 70 + i)).encode()
             elif s.startswith("unflash"):
                 # a result text that may span lines: a diagnostic echoed to the client must still be one protocol line
-                for i in ids(w[1] if len(w) > 1 else "*")[:6]: out += ("%d: %s~" % (i, R.choice(["OK", "OK", "ERR breaker tripped", "ERR line one\r\nsee event log 17", "ERR\nx", "ERR \r"]))).encode()
+                for i in ids(w[1] if len(w) > 1 else "*")[:6]: out += ("%d: %s~" % (i, R.choice(["OK", "OK", "ERR breaker tripped", "ERR line one\r\nsee event log 17", "ERR\nx", "ERR \r"] + (["ERR " + "v" * R.choice([1018, 1019, 1020, 1500, 3000])] if R.random() < 0.3 else [])))).encode()
             elif s.startswith("on") or s.startswith("off"):
                 for i in ids(w[1] if len(w) > 1 else "*")[:6]: out += ("%d: %s\n" % (i, R.choice(["OK", "OK", "OK", "ERROR"]))).encode()
         except Exception:
